@@ -338,6 +338,107 @@ Section GlueBnd.
   Qed.
 End GlueBnd.
 
+(* ---- the line and column an entry carries ARE the line and column (pest's Position::line_col) of its byte
+   offset: what --check reports is the place where an edit run inserts ---- *)
+Lemma lcg_cons x r l c :
+  line_col_go (x :: r) l c =
+  if x =? 13 then match r with
+                  | [] => line_col_go r l (c + 1)
+                  | y :: r' => if y =? 10 then line_col_go r' (l + 1) 1 else line_col_go r l (c + 1)
+                  end
+  else if x =? 10 then line_col_go r (l + 1) 1 else line_col_go r l (c + 1).
+Proof.
+  destruct x as [|p]; [reflexivity|].
+  do 4 (destruct p as [p|p|]; try reflexivity).
+  destruct r as [|y r']; [reflexivity|]. destruct y as [|q]; [reflexivity|].
+  do 4 (destruct q as [q|q|]; try reflexivity).
+Qed.
+
+Lemma line_col_go_snoc40 : forall n (pre : list N) l c, (List.length pre <= n)%nat ->
+  line_col_go (pre ++ [40])%list l c = (fst (line_col_go pre l c), snd (line_col_go pre l c) + 1).
+Proof.
+  induction n as [|n IH]; intros pre l c Hn.
+  - destruct pre; [reflexivity|cbn [List.length] in Hn; lia].
+  - destruct pre as [|x pre]; [reflexivity|]. cbn [List.length] in Hn. cbn [app]. rewrite !lcg_cons.
+    destruct (x =? 13).
+    + destruct pre as [|y pre']; [reflexivity|]. cbn [app]. cbn [List.length] in Hn.
+      destruct (y =? 10).
+      * apply IH. lia.
+      * apply (IH (y :: pre')). cbn [List.length]. lia.
+    + destruct (x =? 10); apply IH; lia.
+Qed.
+
+Section GlueLineCol.
+  Variable P : params.
+  Variable code : list N.
+  Variable strict : string -> bool.
+  Variable first : string -> option N.
+  Hypothesis first_args : first "macro_args" = Some 40.
+
+  Lemma line_col_after_bracket args l c :
+    is_rule args "macro_args" = true -> tree_first code first args ->
+    line_col code (node_start args) = Some (l, c) -> line_col code (node_start args + 1) = Some (l, c + 1).
+  Proof.
+    destruct args as [r s e kids]. unfold is_rule. cbn [node_rule node_start]. intros Hr H Hlc.
+    apply String.eqb_eq in Hr. subst r. apply (proj1 (tree_first_unfold code first _ s e kids)) in H. destruct H as [H _].
+    unfold node_first in H. rewrite first_args in H. destruct H as (pre & post & Hc & Hl).
+    unfold line_col in *. subst code. rewrite <- Hl in *. rewrite take_bytes_app in Hlc.
+    replace (blen pre + 1) with (blen (pre ++ [40])%list) by (rewrite blen_app; cbn [blen]; change (cplen 40) with 1; lia).
+    replace (pre ++ 40 :: post)%list with ((pre ++ [40]) ++ post)%list by (rewrite <- app_assoc; reflexivity).
+    rewrite take_bytes_app. rewrite (line_col_go_snoc40 (List.length pre) pre 1 1 (le_n _)).
+    inversion Hlc as [Hlc']. rewrite Hlc'. reflexivity.
+  Qed.
+
+  Lemma one_macro_line_col cfg found e :
+    tree_first code first found ->
+    one_macro P cfg code found = Emit e -> line_col code (e_pos e) = Some (e_line e, e_col e).
+  Proof.
+    intros Hfirst. unfold one_macro.
+    pose proof (first_kids code first found Hfirst) as Hfk.
+    destruct (node_kids found) as [|name_rule inner]; [discriminate|].
+    inversion Hfk as [|? ? _ Hfinner]; subst.
+    destruct (negb (is_rule name_rule "macro_name")); [discriminate|].
+    destruct (directive_check P (p_ignore P) code (node_start name_rule) (p_comment_re P)) as [[|]|]; try discriminate.
+    destruct (str_slice code (node_start name_rule) (node_end name_rule)) as [name|]; [|discriminate].
+    destruct (negb (macro_of_interest name cfg)); [discriminate|].
+    destruct inner as [|args rest]; [discriminate|]. inversion Hfinner as [|? ? Hfa _]; subst.
+    destruct (is_rule args "macro_args") eqn:Eargs; cbn [negb]; [|discriminate].
+    set (sc := scan_args (node_kids args) (mkScan None [] false None)).
+    destruct (if cfg_structured cfg then _ else _) as [nk|]; [|discriminate].
+    destruct (cfg_structured cfg && negb nk).
+    - destruct (find_ref_kv P code (sc_kvs sc)) as [[vs|]| |]; try discriminate.
+      + destruct (line_col code (node_start vs)) as [[l c]|] eqn:Elc; [|discriminate].
+        destruct (str_slice code (node_start vs) (node_end vs)); [|discriminate].
+        intros H. inversion H; subst. cbn [e_pos e_line e_col]. exact Elc.
+      + destruct (sc_after_target sc) as [p|].
+        * destruct (line_col code p) as [[l c]|] eqn:Elc; [|discriminate]. intros H. inversion H; subst.
+          cbn [e_pos e_line e_col]. exact Elc.
+        * destruct (line_col code (node_start args)) as [[l c]|] eqn:Elc; [|discriminate]. intros H. inversion H; subst.
+          cbn [e_pos e_line e_col]. apply line_col_after_bracket; assumption.
+    - destruct (sc_msg sc) as [sv|]; [|discriminate].
+      destruct (line_col code (node_start sv)) as [[l c]|] eqn:Elc; [|discriminate].
+      destruct (str_slice code (node_start sv) (node_end sv)); [|discriminate].
+      intros H. inversion H; subst. cbn [e_pos e_line e_col]. exact Elc.
+  Qed.
+
+  Lemma collect_line_col cfg : forall founds acc es,
+    Forall (tree_first code first) founds ->
+    Forall (fun e => line_col code (e_pos e) = Some (e_line e, e_col e)) acc ->
+    collect P cfg code founds acc = Done es ->
+    Forall (fun e => line_col code (e_pos e) = Some (e_line e, e_col e)) es.
+  Proof.
+    induction founds as [|f founds IH]; intros acc es Hfi Hacc H; cbn [collect] in H.
+    - inversion H; subst. apply Forall_rev. exact Hacc.
+    - inversion Hfi as [|? ? Hff Hfi2]; subst.
+      destruct (is_rule f "log_macro").
+      + destruct (one_macro P cfg code f) as [|e|] eqn:Eom; try discriminate.
+        * eapply IH; eauto.
+        * eapply IH; [exact Hfi2| |exact H]. constructor; [|exact Hacc].
+          eapply one_macro_line_col; eauto.
+      + destruct (is_rule f "EOI" || is_rule f "other_name"); [|discriminate]. eapply IH; eauto.
+  Qed.
+End GlueLineCol.
+
 (* ---- what an entry can ask to have inserted: the default token, or the key-value prefix with one of the two
    suffixes ---- *)
 Section GlueFormats.
@@ -462,5 +563,25 @@ Section Finder.
     cbn [all_first] in Hfi. destruct Hfi as [Hft _].
     pose proof (first_kids code the_first _ Hft) as Hfk. cbn [node_kids] in Hfk.
     intros H. eapply (collect_bnd P code strict the_first eq_refl cfg kids [] es Hkids Hfk); [constructor|exact H].
+  Qed.
+
+  Theorem entries_line_col name ty impl body :
+    grammar_ok name ty impl body -> first_ok the_first (p_file P) = true ->
+    forall cfg code es, entries P cfg code = Done es ->
+    Forall (fun e => line_col code (e_pos e) = Some (e_line e, e_col e)) es.
+  Proof.
+    intros (Hfile & Hemit & Hwf & Hstrict & Hnames) Hfirst cfg code es. unfold entries.
+    destruct (parse (p_U P) (p_ws P) (p_comment P) (p_file P) code) as [| |i' toks] eqn:Ep;
+      [intros H; inversion H; constructor|discriminate|].
+    unfold parse in Ep.
+    assert (Heoi : forall c, the_first "EOI" = Some c -> False) by (intros c Hc; discriminate).
+    pose proof (run_first code the_first Heoi (p_U P) (skipf (p_U P) (p_ws P) (p_comment P))
+                  (skipf_adv (p_U P) (p_ws P) (p_comment P)) _ _ _ _ _ _ Hfirst (suffix_init code) Ep) as Hfi.
+    rewrite Hfile in Ep.
+    destruct (rule_node_shape (p_U P) (skipf (p_U P) (p_ws P) (p_comment P)) name ty impl body NonAtomic false
+                _ _ _ ltac:(destruct ty; exact Hemit) Ep) as (kids & -> & Hkn).
+    cbn [node_kids]. cbn [all_first] in Hfi. destruct Hfi as [Hft _].
+    pose proof (first_kids code the_first _ Hft) as Hfk. cbn [node_kids] in Hfk.
+    intros H. eapply (collect_line_col P code the_first eq_refl cfg kids [] es Hfk); [constructor|exact H].
   Qed.
 End Finder.
